@@ -169,6 +169,13 @@ func main() {
 		lib.Finish(f, res)
 	}
 
+	// watchdog: a harness that does not finish is reported, never silently green
+	go func() {
+		time.Sleep(time.Duration(f.Scale(480, 2700)) * time.Second)
+		res.Note("watchdog: the harness did not finish in time")
+		res.Mismatch(lib.Mismatch{Sig: "harness-watchdog-timeout", Input: "the harness did not finish within its own time limit"})
+		lib.Finish(f, res)
+	}()
 	r := lib.NewRNG(f.Seed)
 	workers := runtime.NumCPU()
 	if workers > 16 {
@@ -181,7 +188,7 @@ func main() {
 		go c.runBatches(ch, &wg)
 	}
 	var sections sync.WaitGroup
-	sections.Add(4)
+	sections.Add(5)
 	t0 := time.Now()
 	timing := map[string]float64{}
 	var tmu sync.Mutex
@@ -195,6 +202,7 @@ func main() {
 	go timed("trie_section_done_s", func() { c.trieSection(r.Fork(1), ch) })
 	go timed("rpc_section_done_s", func() { c.rpcSection(r.Fork(2), ch) })
 	go timed("range_section_done_s", func() { c.rangeSection(r.Fork(3), ch) })
+	go timed("range_small_section_done_s", func() { c.rangeSmallSection(r.Fork(5), ch, c.probeRangeCfg()) })
 	go timed("weird_section_done_s", func() { c.weirdSection(r.Fork(4), ch) })
 	sections.Wait()
 	close(ch)
